@@ -432,7 +432,7 @@ func runAlloc(c *hx.Ctx) {
 	for t := 0; t < maxThreads; t++ {
 		go z.worker(t)
 	}
-	for i := 0; i < c.N(3000, 60000); i++ {
+	for i := 0; i < c.N(3000, 45000); i++ {
 		n := 2 + c.Rng.Intn(maxThreads-1)
 		th := randAllocThreads(c, n, func(int) int { return 0 }, flags, 1)
 		if len(th[0].ops) == 0 {
